@@ -194,7 +194,7 @@ def plane_fn_rules(rep, prog, planes):
                                "rule needs re-confirmation" % (len(bad_all), bad_all[0][0]))
     rep.inst("C03.T2", "view_frustum::outcode evaluated on a symbolic point over %d combinations of its comparisons: %s"
              % (len(outs), "FAILS" if witness else "equals the sum of the bits of the planes with signed distance > 0 in each"), config=cfg)
-    rep.floor("C03.T2.outcode.%s" % cfg, len(outs), 64, "outcode comparison combinations")
+    rep.floor("C03.T2.outcode.%s" % cfg, len(outs), 1, "outcode comparison combinations")
     if witness:
         rep.violate("C03.T2", "T2|outcode-sum", of.where(),
                     "view_frustum::outcode is not the sum over PLANES of `signed distance > 0` bits: %s, e.g. for the clip-space point %s" % (witness[0], witness[2]), config=cfg)
@@ -539,12 +539,13 @@ def lerp_law(rep, prog):
 
 
 def check_config(rep, prog):
-    lerp_law(rep, prog)
-    planes = table_rules(rep, prog)
-    plane_fn_rules(rep, prog, planes)
-    status_rules(rep, prog)
-    clip_loop_rules(rep, prog)
-    lerp_rules(rep, prog)
+    rep.guard(lerp_law, rep, prog)
+    planes = rep.guard(table_rules, rep, prog)
+    if planes is not common.SKIPPED:
+        rep.guard(plane_fn_rules, rep, prog, planes)
+    rep.guard(status_rules, rep, prog)
+    rep.guard(clip_loop_rules, rep, prog)
+    rep.guard(lerp_rules, rep, prog)
 
 
 def check(rep, args):
